@@ -1319,47 +1319,86 @@ def kms_sign_table(ctx, impl):
     ev = Evaluator(ctx.repo, inline_depth=3, inline_filter=lambda f: f.cls is impl and f.name.startswith("_") and not f.name.startswith("__")
                    and f.name not in opaque)
     ev.never_inline = {f.fq for f in by_role.values()}
-    outs = ev.outcomes(sg)
     # the table names the routines by their customary names, whatever they are called in this tree
     routines = {f.name: (lambda *a, n_=KMS_ROUTINE_NAMES[r]: (n_, a[1] if len(a) > 1 else None)) for r, f in by_role.items()}
-    terms = [c for o in outs for c in o.conds] + [o.value for o in outs if o.kind == "return"]
-    isi = {s_ for t in terms for s_ in subterms(t) if isinstance(s_, App) and s_.op == "isinstance"}
-    ksz = {s_ for t in terms for s_ in subterms(t) if isinstance(s_, App) and s_.op == "attr:key_size"}
-    isf = {s_ for t in terms for s_ in subterms(t) if isinstance(s_, App) and s_.op in ("meth:is_file", "meth:exists", "call:os.path.isfile", "call:os.path.exists")}
+    helpers = {n: f for n, f in impl.methods.items() if n.startswith("_") and not n.startswith("__") and f.name not in opaque}
+
+    class _Raises(Raised):
+        def __init__(self, name):
+            super().__init__(name)
+            self.name = name
+
+    def exc_name(v):
+        if isinstance(v, App) and v.op == "new" and isinstance(v.args[0], Ref):
+            return v.args[0].obj.name
+        if isinstance(v, App) and v.op.startswith("call:"):
+            return v.op.split(":")[-1].split(".")[-1]
+        return "Exception"
+
+    def run(fi, argvals, kind, size, alg, depth):
+        """What a call of fi does for this kind of key: its value, or _Raises.  Helpers that were not followed into (a call inside a
+        try block) are evaluated the same way when their value or their raising is asked for."""
+        if depth > 4:
+            raise Unknown("helper depth")
+        outs = ev.outcomes(fi)
+        calls = dict(routines)
+        for hn, hf in helpers.items():
+            if hf is not fi:
+                calls[hn] = (lambda *a, hf_=hf: run(hf_, list(a), kind, size, alg, depth + 1))
+        env = {"__calls__": calls, "__opaque_args__": True}
+        for p_, v_ in zip(fi.params(), argvals):
+            if v_ is not None or p_ not in ("self", "cls"):
+                env["param:" + p_] = v_
+        terms = [c for o in outs for c in o.conds] + [o.value for o in outs if o.kind == "return" and o.value is not None]
+        for t in terms:
+            for s_ in subterms(t):
+                if isinstance(s_, App) and s_.op == "isinstance":
+                    env[s_] = kind in repr(s_.args[1])
+                    if isinstance(s_.args[0], App):
+                        env[s_.args[0]] = Stub("key")
+                elif isinstance(s_, App) and s_.op == "attr:key_size":
+                    env[s_] = size
+                elif isinstance(s_, App) and s_.op in ("meth:is_file", "meth:exists", "call:os.path.isfile", "call:os.path.exists"):
+                    env[s_] = True
+
+        def holds(o, c):
+            if isinstance(c, App) and c.op == "exc" and c.args and isinstance(c.args[0], Const):
+                # "the guarded block raised <class>": decided by the calls of that block that were not followed into
+                caught = str(c.args[0].v).split(".")[-1]
+                for e_ in o.effects:
+                    if isinstance(e_, App) and e_.op == "eff:partial":
+                        for x_ in all_effects(e_.args[0].args):
+                            if isinstance(x_, App) and x_.op == "eff:call" and isinstance(x_.args[0], App) and x_.args[0].op == "call" \
+                                    and isinstance(x_.args[0].args[0], Ref) and getattr(x_.args[0].args[0].obj, "name", None) in calls:
+                                try:
+                                    teval(x_.args[0], env)
+                                except _Raises as r_:
+                                    return caught in (r_.name, "Exception", "BaseException") or caught.startswith("(")
+                return False
+            if isinstance(c, App) and c.op == "not" and len(c.args) == 1 and isinstance(c.args[0], App) and c.args[0].op == "exc":
+                return not holds(o, c.args[0])
+            return bool(teval(c, env))
+        for o in sorted(outs, key=lambda o_: o_.kind != "raise"):  # a raise pre-empts the merged normal exit of a followed helper
+            if not all(holds(o, c) for c in o.conds):
+                continue
+            if o.kind == "raise":
+                raise _Raises(exc_name(o.value))
+            return teval(o.value, env) if o.value is not None else None
+        raise Unknown("no exit selected")
+
     table = {}
     for kind, size in KMS_KEY_KINDS:
         for alg in KMS_ALGORITHMS:
-            env = {"param:algorithm": alg, "param:data": b"<data>", "__calls__": routines, "__opaque_args__": True}
-            for s_ in isi:
-                env[s_] = kind in repr(s_.args[1])
-                if isinstance(s_.args[0], App):
-                    env[s_.args[0]] = Stub("key")
-            for s_ in ksz:
-                env[s_] = size
-            for s_ in isf:
-                env[s_] = True
-            res = None
             try:
-                for o in sorted(outs, key=lambda o_: o_.kind != "raise"):  # a raise pre-empts the merged normal exit
-                    try:
-                        if not all(bool(teval(c, env)) for c in o.conds):
-                            continue
-                    except Raised:
-                        res = "raise"
-                        break
-                    if o.kind == "raise":
-                        res = "raise"
-                    else:
-                        v = teval(o.value, env)
-                        res = v if isinstance(v, tuple) and v and v[0] in KMS_ROUTINE_NAMES.values() else ("?", repr(v)[:60])
-                    break
+                argv = [None] + [{"data": b"<data>", "algorithm": alg}.get(p_, Stub("arg:" + p_)) for p_ in sg.params()[1:]]
+                v = run(sg, argv, kind, size, alg, 0)
+                res = v if isinstance(v, tuple) and v and v[0] in KMS_ROUTINE_NAMES.values() else ("?", repr(v)[:60])
             except Raised:
                 res = "raise"
             except Unknown:
                 return None
-            table[(kind, size, alg)] = res or "none"
+            table[(kind, size, alg)] = res
     return table
-
 
 def kms_sign_table_expected():
     want = {}
